@@ -28,7 +28,12 @@ type Mutant struct {
 	// ExpectCaught=false documents a behaviour change the static rules cannot see.
 	ExpectCaught *bool  `json:"expect_caught,omitempty"`
 	Note         string `json:"note,omitempty"`
-	Patch        string `json:"-"` // path of a unified diff (seeded changes) instead of Old/New
+	More         []struct {
+		File string `json:"file"`
+		Old  string `json:"old"`
+		New  string `json:"new"`
+	} `json:"more,omitempty"` // further edits of the same variant
+	Patch string `json:"-"` // path of a unified diff (seeded changes) instead of Old/New
 }
 
 type mutantResult struct {
@@ -184,6 +189,15 @@ func runOneMutant(exe, repo, verif, prop string, m Mutant) mutantResult {
 			return res
 		}
 		os.WriteFile(p, []byte(strings.Replace(string(b), m.Old, m.New, 1)), 0o644)
+		for _, e := range m.More {
+			p2 := filepath.Join(tmp, e.File)
+			b2, err := os.ReadFile(p2)
+			if err != nil || strings.Count(string(b2), e.Old) != 1 {
+				res.Status, res.Detail = "stale", "secondary edit no longer applies in "+e.File
+				return res
+			}
+			os.WriteFile(p2, []byte(strings.Replace(string(b2), e.Old, e.New, 1)), 0o644)
+		}
 	}
 	ev := filepath.Join(tmp, ".verif-evidence.json")
 	ctx, cancel := context.WithTimeout(context.Background(), 180*time.Second)
